@@ -1,1 +1,188 @@
-let run_case (a : string array) : string = "?unknown-op"
+(* driver_zone.ml — zone operations of the extracted model.  Zones come from
+   the table file named by $VERIF_ZONES: one line per zone, "<id> <hex bytes>". *)
+open Model
+open Util
+
+type zentry = {
+  bytes : z list;
+  model : zone option res Lazy.t;          (* load_bytes *)
+  spec : (header * ast) option Lazy.t;     (* parse_ast *)
+  sz : szone option Lazy.t;
+  wf : bool Lazy.t;
+  changes : z list Lazy.t;
+  mutable hint_bt : z;                     (* hidden state threaded for C14 *)
+  mutable hint_mt : z;
+}
+
+let table : (string, zentry) Hashtbl.t = Hashtbl.create 64
+let loaded = ref false
+
+let mk_entry (bytes : z list) : zentry =
+  let spec = lazy (parse_ast bytes) in
+  let sz = lazy (match Lazy.force spec with Some (_, a) -> Some (szone_of a) | None -> None) in
+  { bytes;
+    model = lazy (load_bytes bytes);
+    spec; sz;
+    wf = lazy (match Lazy.force spec with Some (h, a) -> wf_ast h a | None -> false);
+    changes = lazy (match Lazy.force sz with Some s -> all_changes s | None -> []);
+    hint_bt = Z0; hint_mt = Z0 }
+
+let load_table () =
+  if not !loaded then begin
+    loaded := true;
+    match Sys.getenv_opt "VERIF_ZONES" with
+    | None -> ()
+    | Some path ->
+      let ic = open_in path in
+      (try while true do
+        let line = input_line ic in
+        match String.index_opt line ' ' with
+        | Some i ->
+          let id = String.sub line 0 i in
+          let hx = String.sub line (i + 1) (String.length line - i - 1) in
+          Hashtbl.replace table id (mk_entry (bytes_of_hex hx))
+        | None -> ()
+      done with End_of_file -> ());
+      close_in ic
+  end
+
+let get id = load_table (); Hashtbl.find table id
+
+let show_al (al : alookup) =
+  Printf.sprintf "%s %s %s %s" (string_of_z al.al_off) (b2s al.al_dst) (hex_of_bytes al.al_abbr) (show_fields al.al_cs)
+let show_sl (sl : slookup) =
+  Printf.sprintf "%s %s %s %s" (string_of_z sl.sl_off) (b2s sl.sl_dst) (hex_of_bytes sl.sl_abbr) (show_fields sl.sl_cs)
+let kind_s = function UNIQUE -> "U" | SKIPPED -> "S" | REPEATED -> "R"
+let skind_s = function SU -> "U" | SS -> "S" | SR -> "R" | SX -> "X"
+let show_cl (c : clookup) =
+  Printf.sprintf "%s %s %s %s" (kind_s c.cl_kind) (string_of_z c.cl_pre) (string_of_z c.cl_trans) (string_of_z c.cl_post)
+let show_scl (c : scl) =
+  Printf.sprintf "%s %s %s %s" (skind_s c.s_kind) (string_of_z c.s_pre) (string_of_z c.s_trans) (string_of_z c.s_post)
+let show_tr = function
+  | None -> "0"
+  | Some (f, t) -> "1 " ^ show_fields f ^ " " ^ show_fields t
+
+(* run f on the loaded model zone; "noload" if the loader rejected *)
+let with_model (e : zentry) (f : zone -> string) : string =
+  match Lazy.force e.model with
+  | OK (Some z) -> f z
+  | OK None -> "noload"
+  | Err er -> "ERR:" ^ string_of_err er
+let with_spec (e : zentry) (f : szone -> string) : string =
+  match Lazy.force e.sz with
+  | Some s -> if Lazy.force e.wf then f s else "notwf"
+  | None -> "noparse"
+
+let fields_of a off = { fy = zi a off; fm = zi a (off+1); fd = zi a (off+2); fhh = zi a (off+3); fmm = zi a (off+4); fss = zi a (off+5) }
+
+let zlt a b = (Z.compare a b = Lt)
+
+(* domain restriction for spec_info: a footer-only zone below the -2^59 sentinel *)
+let below_sentinel_footer_only (s : szone) (t : z) =
+  (match s.sz_ast.a_times, s.sz_footer with [], FRule _ -> zlt t big_bang | _ -> false)
+
+(* Known-finding family F9: a DST-rule footer behind a last transition before
+   1970 (or no transition at all).  The tag is attached to every case on such a
+   zone so that known_findings.json can name the family precisely. *)
+let f9_zone (e : zentry) : bool =
+  match Lazy.force e.sz with
+  | Some s ->
+    (match s.sz_footer with
+     | FRule _ -> (match List.rev s.sz_ast.a_times with [] -> true | t :: _ -> zlt t Z0)
+     | _ -> false)
+  | None -> false
+
+let run_case_inner (a : string array) : string =
+  match a.(0) with
+  | "zload" ->
+    let e = get a.(1) in
+    let m = (match Lazy.force e.model with OK (Some _) -> "1" | OK None -> "0" | Err er -> "ERR:" ^ string_of_err er) in
+    let wf = Lazy.force e.wf in
+    (* spec: a well-formed file must load; for others the spec does not say *)
+    out m (if wf then "1" else m) wf
+  | "bt" ->
+    let e = get a.(1) in let t = zi a 2 in
+    let m = with_model e (fun z -> show_res (fun (al, _) -> show_al al) (break_time z Z0 t)) in
+    let s = with_spec e (fun s -> match spec_lookup s t with Some sl -> show_sl sl | None -> "undef") in
+    let p = Lazy.force e.wf && in64 t &&
+            (match Lazy.force e.sz with Some s -> not (below_sentinel_footer_only s t) && spec_lookup s t <> None | None -> false) in
+    out m s p
+  | "mt" | "cv" ->
+    let e = get a.(1) in let cs = fields_of a 2 in
+    let l = sec_of cs in
+    if a.(0) = "mt" then begin
+      let m = with_model e (fun z -> show_res (fun (c, _) -> show_cl c) (make_time z Z0 cs)) in
+      let sc = (match Lazy.force e.sz with Some s when Lazy.force e.wf -> Some (spec_civil s l) | _ -> None) in
+      let s = (match sc with Some c -> show_scl c | None -> "notwf") in
+      let p = (match sc with Some c -> c.s_kind <> SX && valid_fields cs && in64 cs.fy | None -> false) in
+      out m s p
+    end else begin
+      let m = with_model e (fun z -> show_res string_of_z (convert_cs z Z0 cs)) in
+      let sc = (match Lazy.force e.sz with Some s when Lazy.force e.wf -> spec_convert s l | _ -> None) in
+      out m (match sc with Some v -> string_of_z v | None -> "undef") (sc <> None && valid_fields cs && in64 cs.fy)
+    end
+  | "nt" | "pt" ->
+    let e = get a.(1) in let t = zi a 2 in
+    let m = with_model e (fun z -> show_res show_tr (if a.(0) = "nt" then next_transition z t else prev_transition z t)) in
+    let wf = Lazy.force e.wf in
+    let s = with_spec e (fun s ->
+      let ch = Lazy.force e.changes in
+      let cand = if a.(0) = "nt" then (try Some (List.find (fun x -> zlt t x) ch) with Not_found -> None)
+                 else (try Some (List.find (fun x -> zlt x t) (List.rev ch)) with Not_found -> None) in
+      match cand with
+      | None -> "0"
+      | Some tt -> show_tr (spec_transition s tt)) in
+    out m s (wf && in64 t)
+  | "rt" ->
+    (* C03: instant -> civil -> instant *)
+    let e = get a.(1) in let t = zi a 2 in
+    let m = with_model e (fun z ->
+      show_res (fun x -> x)
+        (bind (break_time z Z0 t) (fun (al, _) ->
+         bind (make_time z Z0 al.al_cs) (fun (c, _) -> OK (show_cl c))))) in
+    let sc = (match Lazy.force e.sz with
+              | Some s when Lazy.force e.wf ->
+                (match spec_lookup s t with Some sl -> Some (spec_civil s (sec_of sl.sl_cs)) | None -> None)
+              | _ -> None) in
+    let day = z_of_int 86400 in
+    let inner = in64 (Z.sub t day) && in64 (Z.add t day) in
+    let ok_rt = (match sc with
+                 | Some c -> (c.s_kind = SU && c.s_pre = t) || (c.s_kind = SR && (c.s_pre = t || c.s_post = t))
+                 | None -> false) in
+    (* S is the spec's own answer; additionally the spec answer must recover t (checked by P-side flag) *)
+    out m (match sc with Some c -> show_scl c ^ (if ok_rt then "" else " !roundtrip") | None -> "notwf")
+      (sc <> None && inner)
+  | "chain" ->
+    let e = get a.(1) in
+    let m = with_model e (fun z ->
+      let rec go t acc guard =
+        if guard > 100000 then Err Fuel else
+        match next_transition z t with
+        | Err er -> Err er
+        | OK None -> OK (List.rev acc)
+        | OK (Some (f, tt)) ->
+          (match make_time z Z0 tt with
+           | Err er -> Err er
+           | OK (c, _) -> go c.cl_trans ((show_fields f ^ " " ^ show_fields tt) :: acc) (guard + 1)) in
+      let rec back t acc guard =
+        if guard > 100000 then Err Fuel else
+        match prev_transition z t with
+        | Err er -> Err er
+        | OK None -> OK acc
+        | OK (Some (f, tt)) ->
+          (match make_time z Z0 tt with
+           | Err er -> Err er
+           | OK (c, _) -> back c.cl_trans ((show_fields f ^ " " ^ show_fields tt) :: acc) (guard + 1)) in
+      match go min64 [] 0, back max64 [] 0 with
+      | OK l, OK b -> Printf.sprintf "%d B=%s%s" (List.length l) (b2s (l = b)) (String.concat "" (List.map (fun x -> " | " ^ x) l))
+      | Err er, _ | _, Err er -> "ERR:" ^ string_of_err er) in
+    let s = with_spec e (fun s ->
+      let ch = Lazy.force e.changes in
+      let l = List.map (fun t -> match spec_transition s t with Some (f, tt) -> show_fields f ^ " " ^ show_fields tt | None -> "undef") ch in
+      Printf.sprintf "%d B=1%s" (List.length l) (String.concat "" (List.map (fun x -> " | " ^ x) l))) in
+    out m s (Lazy.force e.wf)
+  | _ -> "?unknown-op"
+
+let run_case (a : string array) : string =
+  let r = run_case_inner a in
+  if Array.length a > 1 && Hashtbl.mem table a.(1) && f9_zone (Hashtbl.find table a.(1)) then r ^ " ; K F9" else r
